@@ -90,6 +90,21 @@ class Capture:
             setattr(cls, nm, orig)
 
 
+def activated(e, kw0):
+    """keyword arguments that switch on code paths which are off by default (values None or 0 in the signature)"""
+    out = {}
+    for nm, default in e['params'].items():
+        if nm in kw0:
+            continue
+        if nm in ('lam_smooth',) and default in (None, 0):
+            out[nm] = 10.0
+        elif nm in ('smooth_half_window',) and default in (None, 0):
+            out[nm] = 2
+        elif nm == 'lam_1' and default is not None:
+            out[nm] = 0.5
+    return out
+
+
 def correspond(ctx):
     from pybaselines import Baseline, Baseline2D
     rng = ctx.np_rng()
@@ -132,9 +147,17 @@ def correspond(ctx):
                 for lay in dict.fromkeys(lays):
                     if stack and lay in ('column', 'row'):
                         continue
-                    for raising in ((False, True) if lay in ('contiguous', 'strided') else (False,)):
+                    variants = [(False, False), (True, False)] if lay in ('contiguous', 'strided') else [(False, False)]
+                    # optional code paths that are off by default (pre-smoothing etc.) and every banded_solver value
+                    act = activated(e, kw0)
+                    if act and lay in ('contiguous', 'readonly'):
+                        variants.append((False, True))
+                    for raising, activate in variants:
                         objs = {}
                         kw = dict(kw0)
+                        if activate:
+                            kw.update(act)
+                        solver = int(rng.integers(1, 5)) if not activate else (3 + int(rng.integers(0, 2)))
                         objs['data'] = layout(data0, lay if not (two_d and lay in ('column', 'row')) else 'contiguous', rng)
                         xin = layout(x, lay if lay in ('contiguous', 'strided', 'readonly', 'list') else 'contiguous', rng)
                         objs['x'] = xin
@@ -183,21 +206,24 @@ def correspond(ctx):
                             try:
                                 with np.errstate(all='ignore'):
                                     fit = Baseline2D(objs['x'], objs['z']) if two_d else Baseline(objs['x'])
+                                    fit.banded_solver = solver
                                     getattr(fit, name)(objs['data'], **kw)
                             except Exception as ex:
                                 outcome = 'raised:' + type(ex).__name__
                                 err = str(ex)
                         after = {k: snap(v) for k, v in objs.items()}
-                        canon = (dim, name, xord, lay, raising, tuple(sorted(objs)))
+                        canon = (dim, name, xord, lay, raising, activate, solver, tuple(sorted(objs)))
                         ctx.case(canon, nontrivial=bool(optional) or lay != 'contiguous' or len(objs) > 2,
                                  sample={'method': f'{dim}:{name}', 'x': xord, 'layout': lay, 'objects': sorted(objs), 'call': 'raising' if raising else 'returning'}
                                  if len(ctx.samples) < 5 and optional else None)
                         ctx.count('layout:' + lay)
                         ctx.count('outcome:' + outcome.split(':')[0])
-                        meta = {'method': name, 'two_d': two_d, 'x_order': xord, 'layout': lay, 'raising': raising, 'objects': sorted(objs)}
+                        meta = {'method': name, 'two_d': two_d, 'x_order': xord, 'layout': lay, 'raising': raising, 'objects': sorted(objs), 'banded_solver': solver,
+                                'activated': act if activate else {}}
                         changed = [k for k in objs if before[k] != after[k]]
                         for k in changed:
-                            dis.append(Disagreement('c13.mutated', f'{dim}:{name}:{k}', f'{dim} {name} ({lay} inputs, x {xord}, {"raising" if raising else "returning"} call) '
+                            dis.append(Disagreement('c13.mutated', f'{dim}:{name}:{k}', f'{dim} {name} ({lay} inputs, x {xord}, {"raising" if raising else "returning"} call, banded_solver={solver}'
+                                                    f'{", " + str(act) if activate else ""}) '
                                                     f'modified the caller\'s {k}', dict(meta, object=k), True))
                         if lay == 'readonly' and err and 'read-only' in err:
                             dis.append(Disagreement('c13.readonly', f'{dim}:{name}:readonly', f'{dim} {name} attempted to write to a read-only caller array ({err[:80]})',
